@@ -87,8 +87,8 @@ Proof. exact sort_is_permutation. Qed.
 Print Assumptions C01_sort_permutes.
 
 (* Not yet covered by the invariant proof (tied to the code by correspondence
-   only): ShuffleSequences, FilterLength, Clone, SetSequenceChar, Sample,
-   TrimNamesAuto.  Full statement kept visible: *)
+   only): FilterLength and Sample (they add rows through the sequence bag's
+   method, without the alignment's length check).  Full statement kept visible: *)
 Definition C01_invariant_every_operation_statement : Prop :=
   forall st op, Inv st -> Inv (fst (step st op)).
 
